@@ -9,6 +9,7 @@ package main
 
 import (
 	"context"
+	"encoding/json"
 	"crypto/sha256"
 	"encoding/binary"
 	"fmt"
@@ -82,6 +83,20 @@ type Chain struct {
 
 	// sub-step observer for EndBlocker (set by the driver)
 	OnSub func(stage string, id int)
+
+	// the requests listed by the new_batch_request event(s) of the sub-step in progress, in order
+	EvReqs []EvReq
+	evSeen int
+}
+
+// EvReq is one entry of the "requests" attribute of a new_batch_request event
+type EvReq struct {
+	Ctx   int    `json:"ctx"`
+	Batch int64  `json:"batch"`
+	Prov  string `json:"prov"`
+	Fee   int64  `json:"fee"`
+	Rh    int64  `json:"rh"`
+	Exp   int64  `json:"exp"`
 }
 
 func addrOf(name string) sdk.AccAddress {
@@ -95,6 +110,8 @@ func modelTime(t time.Time) int64 {
 	}
 	return t.Unix() - TimeBase + NowOffset
 }
+
+func secs(n int64) time.Duration { return time.Duration(n) * time.Second }
 
 func realTime(m int64) time.Time {
 	return time.Unix(TimeBase+m-NowOffset, 0).UTC()
@@ -259,6 +276,7 @@ func (c *Chain) EndBlock(dt int64) (out Outcome) {
 		if id != nil {
 			n = c.CtxIDs[string(id)]
 		}
+		c.collectBatchEvents(ctx)
 		switch stage {
 		case "expire":
 			c.Phase = "expire"
@@ -280,6 +298,8 @@ func (c *Chain) EndBlock(dt int64) (out Outcome) {
 		c.OnSub("begin", 0)
 	}
 	c.Ctx = c.Ctx.WithEventManager(sdk.NewEventManager())
+	c.evSeen = 0
+	c.EvReqs = nil
 	service.EndBlocker(c.Ctx, c.K)
 	c.Height++
 	c.Now += dt
@@ -290,6 +310,31 @@ func (c *Chain) EndBlock(dt int64) (out Outcome) {
 		c.OnSub("end", int(dt))
 	}
 	return Outcome{OK: true}
+}
+
+// collectBatchEvents reads the new_batch_request events emitted since the previous sub-step:
+// off-chain clients find a request again by its position in that event's list
+func (c *Chain) collectBatchEvents(ctx sdk.Context) {
+	evs := ctx.EventManager().Events()
+	c.EvReqs = []EvReq{}
+	for _, e := range evs[c.evSeen:] {
+		if e.Type != types.EventTypeNewBatchRequest {
+			continue
+		}
+		var reqs []types.CompactRequest
+		for _, a := range e.Attributes {
+			if string(a.Key) == types.AttributeKeyRequests {
+				_ = json.Unmarshal(a.Value, &reqs)
+			}
+		}
+		for _, r := range reqs {
+			var anom []string
+			c.registerNewContexts()
+			c.EvReqs = append(c.EvReqs, EvReq{Ctx: c.CtxIDs[string(r.RequestContextId)], Batch: int64(r.RequestContextBatchCounter),
+				Prov: c.Name(r.Provider), Fee: c.amount(r.ServiceFee, "event fee", &anom), Rh: r.RequestHeight, Exp: r.ExpirationHeight})
+		}
+	}
+	c.evSeen = len(evs)
 }
 
 func (c *Chain) TakeCallbacks() []Callback {
